@@ -16,6 +16,7 @@ import (
 	"github.com/google/badwolf/triple/predicate"
 
 	"verif/explore"
+	"verif/model"
 	"verif/vrt"
 )
 
@@ -197,5 +198,47 @@ func init() {
 					g.AddTriples(ctx, pick(0b0100))
 				}
 			})
+		}})
+}
+
+// S6b: a BQL CONSTRUCT (bulk size 1, five solutions) next to a BQL DROP GRAPH of its output graph: both statements
+// return (a table or an error); the writer of the CONSTRUCT and its producer never park each other.
+func init() {
+	scenarios = append(scenarios, scenario{
+		Name: "S6b", Class: "S6b:BQL-CONSTRUCT|BQL-DROP-of-its-output-graph", Mode: explore.Bounded, OneCap: true, Cfg: vrt.Config{Procs: 2}, BoundQ: 1, BoundT: 2,
+		Body: func(h *hctx, c int) {
+			st := memory.NewStore()
+			g, err := st.NewGraph(ctx, "?g")
+			if err != nil {
+				panic(err)
+			}
+			if _, err := st.NewGraph(ctx, "?d"); err != nil {
+				panic(err)
+			}
+			var ts []*triple.Triple
+			for i := 0; i < 5; i++ {
+				ts = append(ts, model.T(uS, model.PI("p"), model.ON(model.N("/u", fmt.Sprintf("o%d", i)))))
+			}
+			if err := g.AddTriples(ctx, ts); err != nil {
+				panic(err)
+			}
+			h.wg.Add(2)
+			vrt.GoNamed("construct", func() {
+				defer h.wg.Done()
+				h.bqlIns = runBQL(st, `construct {?s "q"@[] ?o} into ?d from ?g where {?s "p"@[] ?o};`, 0, 1)
+			})
+			vrt.GoNamed("drop", func() {
+				defer h.wg.Done()
+				h.bqlSel = runBQL(st, `drop graph ?d;`, 0, 1)
+			})
+			h.wg.Wait()
+			vrt.MarkReturned()
+		},
+		Custom: func(h *hctx, add func(shape, detail string)) string {
+			if h.bqlSel.err != nil {
+				add("drop-returned-error", h.bqlSel.err.Error())
+			}
+			// the CONSTRUCT may finish before the drop (success) or lose its graph on the way (an error): both are answers
+			return fmt.Sprintf("constructErr=%v", h.bqlIns.err != nil)
 		}})
 }
